@@ -72,7 +72,7 @@ func runEngineProperty(t *testing.T, prop, test string, gen func(*rapid.T) Progr
 			runOne(c, t.Fatalf)
 		}
 	}
-	rapid.Check(t, func(rt *rapid.T) {
+	checkBudget(t, func(rt *rapid.T) {
 		p := gen(rt)
 		runOne(p, rt.Fatalf)
 	})
